@@ -46,6 +46,9 @@ EventsOf(p, fn, v) ==
     [] p = "p13" /\ fn = "h2" -> << {<<"a", v + 2000>>} >>
     [] OTHER -> <<>>
 
+\* f(v) during which probe p is deactivated at the point where f calls g: what f itself binds comes before, what g binds after
+BeforeG(q, v) == IF q \in {"p3", "p4", "p6", "p9"} THEN <<>> ELSE EventsOf(q, "f", v)
+InG(q, v) == IF q = "p4" THEN EventsOf(q, "f", v) ELSE <<>>
 \* a listener that raises: the exception reaches the caller of the probed function, nothing else changes
 ListenerRaises(act, fn, v) == "p9" \in act /\ fn = "f" /\ v = 12
 
